@@ -130,6 +130,21 @@ theorem lookup_exact_partial (st : St) (a : Bytes) (hw : WF st) (hn : noCollisio
     obtain ⟨hr, ra, rs, hmax⟩ := h1
     exact ⟨hr, ra, fun _ => rs, fun hne => absurd ⟨r, hr, ra, rs⟩ hne, fun e he ha hs => hmax e he ha (hs.trans rs)⟩
 
+/-- PARTIAL, the same statement under a hypothesis on the stored NAMES alone (no timestamps): the
+asked asset contains no "/" and no stored `asset' ++ source'` starts with `a ++ "elys"`,
+`a ++ "band"` or `a` unless it is that very (asset, source) pair (resp. an entry of asset `a`).
+Missing for the unconditional statement: the same key-collision defect. -/
+theorem lookup_exact_names_partial (st : St) (a : Bytes) (hw : WF st) (hn : namesNoCollision st a = true) :
+    match getAssetPrice st a with
+    | none => ∀ e ∈ allPrices st, e.asset ≠ a
+    | some r =>
+      r ∈ allPrices st ∧ r.asset = a ∧
+      ((∃ e ∈ allPrices st, e.asset = a ∧ e.source = ELYS) → r.source = ELYS) ∧
+      ((¬ ∃ e ∈ allPrices st, e.asset = a ∧ e.source = ELYS) →
+        (∃ e ∈ allPrices st, e.asset = a ∧ e.source = BAND) → r.source = BAND) ∧
+      (∀ e ∈ allPrices st, e.asset = a → e.source = r.source → e.ts ≤ r.ts) :=
+  lookup_exact_partial st a hw (noCollision_of_names hn)
+
 /-! ### expiry -/
 
 /-- after `EndBlock` at (time, height) no stored price is expired by the time rule or by the height
@@ -260,11 +275,12 @@ set_option exponentiation.threshold 400 in
 /-- non-vacuity: `demo` meets the hypotheses of `lookup_exact_partial` for "BTC" and "ETH", holds
 four prices, and the lookups give the newest elys price / an ETH price / the scaled denom price. -/
 example : WF demo ∧ noCollision demo (ascii "BTC") = true ∧ noCollision demo (ascii "ETH") = true ∧
+    namesNoCollision demo (ascii "BTC") = true ∧
     (allPrices demo).length = 4 ∧
     (getAssetPrice demo (ascii "BTC")).map (fun p => (p.source, p.ts, p.price)) = some (ELYS, 1000, 61000 * P) ∧
     (getAssetPrice demo (ascii "ETH")).map (·.asset) = some (ascii "ETH") ∧
     getAssetPrice demo (ascii "SOL") = none ∧
     (getAssetPriceFromDenom demo (ascii "ubtc")).toOption = some (61000 * P / 100000000) :=
-  ⟨reachable_wf _ rfl _, by decide, by decide, by decide, by decide, by decide, by decide, by decide⟩
+  ⟨reachable_wf _ rfl _, by decide, by decide, by decide, by decide, by decide, by decide, by decide, by decide⟩
 
 end Elys.Oracle.C16
